@@ -334,7 +334,17 @@ func (a *List) M__rmul__(other Object) (Object, error) {
 }
 
 func (a *List) M__imul__(other Object) (Object, error) {
-	return a.M__mul__(other)
+	res, err := a.M__mul__(other)
+	if err != nil {
+		return nil, err
+	}
+	newList, ok := res.(*List)
+	if !ok {
+		return res, nil
+	}
+	// in place: every alias of the list sees the repetition
+	a.Items = newList.Items
+	return a, nil
 }
 
 // Check interface is satisfied
